@@ -2,28 +2,29 @@
 """Copies sub-agent deliverables /tmp/seeded-out/<agent>/<vN>/ into /verif/seeded/<PROP>-<agent>-<vN>/
 (patch.diff, demo.py, notes.md) and writes a meta.json skeleton (kept if it already exists)."""
 import os, sys, json, shutil
-SRC = '/tmp/seeded-out'
+SRCS = ['/tmp/seeded-out', '/tmp/seeded-out2']
 DST = os.path.join(os.path.dirname(os.path.dirname(os.path.abspath(__file__))), 'seeded')
 RELATED = {'C02': ['C02', 'C03', 'C08'], 'C03': ['C03', 'C02', 'C08'], 'C08': ['C08', 'C02'], 'C16': ['C16'], 'C19': ['C19', 'C16']}
-for agent in sorted(os.listdir(SRC)):
-    ad = os.path.join(SRC, agent)
-    if not os.path.isdir(ad):
-        continue
-    prop = agent[:3].upper()
-    for v in sorted(os.listdir(ad)):
-        vd = os.path.join(ad, v)
-        if not os.path.exists(os.path.join(vd, 'patch.diff')):
-            continue
-        name = '%s-%s-%s' % (prop, agent, v.replace('extra-refusal-pads-card', 'extra'))
-        out = os.path.join(DST, name)
-        os.makedirs(out, exist_ok=True)
-        for f in ('patch.diff', 'demo.py', 'notes.md'):
-            if os.path.exists(os.path.join(vd, f)):
-                shutil.copy(os.path.join(vd, f), os.path.join(out, f))
-        mf = os.path.join(out, 'meta.json')
-        if not os.path.exists(mf):
-            json.dump({'property': prop, 'checks': RELATED[prop], 'expect': 'violation', 'demo': 'demo.py',
-                       'origin': 'independent sub-agent %s, given only the property text and a scratch worktree' % agent,
-                       'needs': 'see notes.md', 'ran': 'selftest/sensitivity.py (results in selftest/sensitivity-report.json)'},
-                      open(mf, 'w'), indent=1)
-        print(name)
+for SRC in SRCS:
+  for agent in (sorted(os.listdir(SRC)) if os.path.isdir(SRC) else []):
+      ad = os.path.join(SRC, agent)
+      if not os.path.isdir(ad):
+          continue
+      prop = agent[:3].upper()
+      for v in sorted(os.listdir(ad)):
+          vd = os.path.join(ad, v)
+          if not os.path.exists(os.path.join(vd, 'patch.diff')):
+              continue
+          name = '%s-%s-%s' % (prop, agent, v.replace('extra-refusal-pads-card', 'extra'))
+          out = os.path.join(DST, name)
+          os.makedirs(out, exist_ok=True)
+          for f in ('patch.diff', 'demo.py', 'notes.md'):
+              if os.path.exists(os.path.join(vd, f)):
+                  shutil.copy(os.path.join(vd, f), os.path.join(out, f))
+          mf = os.path.join(out, 'meta.json')
+          if not os.path.exists(mf):
+              json.dump({'property': prop, 'checks': RELATED[prop], 'expect': 'violation', 'demo': 'demo.py',
+                         'origin': 'independent sub-agent %s, given only the property text and a scratch worktree' % agent,
+                         'needs': 'see notes.md', 'ran': 'selftest/sensitivity.py (results in selftest/sensitivity-report.json)'},
+                        open(mf, 'w'), indent=1)
+          print(name)
